@@ -89,6 +89,9 @@ func (s Setting) doc(list []model.Entry, root string) fixture.Doc {
 type C01Case struct {
 	Setting Setting       `json:"setting"`
 	List    []model.Entry `json:"list"`
+	// Mutate: build once, change the source tree (kind path), build again and judge the second
+	// package against the changed tree: the payload reflects the sources as they are at packaging time.
+	Mutate string `json:"mutate,omitempty"`
 }
 
 // c01Templates is the content-entry alphabet (simplest first). Σc′ = the first nQuick.
@@ -136,6 +139,13 @@ func c01Templates() []model.Entry {
 		{Src: "bin/app", Dst: "/usr/bin/sticky", Mode: 0o1755},
 		{Src: "/abs/target", Dst: "/usr/lib/applink2", Type: "symlink", Owner: "app", Group: "grp"},
 	}
+	// on-disk symlinks with non-canonical targets (shipped literally), inserted into the quick alphabet
+	links := []model.Entry{
+		{Src: "links", Dst: "/opt/links", Type: "tree"},
+		{Src: "links/{dot,plain,updown}", Dst: "/opt/linkglob"},
+		{Src: "links/updown", Dst: "/opt/onelink"},
+	}
+	base = append(base[:c01NQuick-3], append(links, base[c01NQuick-3:]...)...)
 	return base
 }
 
@@ -157,7 +167,7 @@ func init() {
 		ID:    "C01",
 		Level: "model_checking",
 		Rule: "every content list of length <=2 over the entry-template alphabet (quick: 25 templates + 15 packager-tagged; thorough: 36 + 15, plus triples over the 12 simplest) " +
-			"x every <=1-deviation build setting (umask, mtime, disable_globbing, deb/rpm compression), each built for all five formats through Parse->Get->WithDefaults->Package; " +
+			"x every <=1-deviation build setting (umask, mtime, disable_globbing, deb/rpm compression), each built for all five formats through Parse->Get->WithDefaults->Package; plus glob / directory / tree / file sources rebuilt after the source tree changed (file added, removed, rewritten with the same length, chmod, new mtime): the second package must reflect the changed tree; " +
 			"payload decoded by harness-owned readers and compared entry by entry with the reference plan; non-trivial = at least one payload entry decoded; distinct = distinct (format, decoded logical tree)",
 		Assumptions: []string{
 			"reference planner model/plan.go states the documented denotation (incl. mode = explicit verbatim else lstat mode minus umask; mtime = entry mtime, else package mtime, else source mtime)",
@@ -181,6 +191,26 @@ func init() {
 				for _, e := range all {
 					if !yield(C01Case{Setting: s, List: []model.Entry{e}}) {
 						return
+					}
+				}
+			}
+			// the source tree changes between two builds of the same configuration
+			muts := []struct {
+				e    model.Entry
+				muts []string
+			}{
+				{model.Entry{Src: "etc/conf.d/*.conf", Dst: "/etc/conf.d"}, []string{"add etc/conf.d/c.conf", "remove etc/conf.d/a.conf", "rewrite etc/conf.d/a.conf", "chmod etc/conf.d/b.conf", "retime etc/conf.d/a.conf"}},
+				{model.Entry{Src: "etc/", Dst: "/cfg"}, []string{"add etc/new.conf", "add etc/conf/extra.conf", "remove etc/empty", "rewrite etc/app.conf", "chmod etc/app.conf"}},
+				{model.Entry{Src: "tree", Dst: "/opt/tree", Type: "tree"}, []string{"add tree/sub/z", "remove tree/x", "rewrite tree/sub/y", "chmod tree/x", "retime tree/x"}},
+				{model.Entry{Src: "etc/app.conf", Dst: "/etc/app.conf", Type: "config"}, []string{"rewrite etc/app.conf", "chmod etc/app.conf", "retime etc/app.conf"}},
+				{model.Entry{Src: "etc/con*/*.conf", Dst: "/etc/app.d"}, []string{"add etc/conf/second.conf", "add etc/conf.d/zz.conf", "remove etc/conf/main.conf"}},
+			}
+			for _, m := range muts {
+				for _, mu := range m.muts {
+					for _, s := range []Setting{sets[0], {Name: "mtime=unset", MTime: "unset"}, {Name: "umask=077", Umask: 0o077}} {
+						if !yield(C01Case{Setting: s, List: []model.Entry{m.e}, Mutate: mu}) {
+							return
+						}
 					}
 				}
 			}
@@ -240,6 +270,20 @@ func checkC01(env *engine.Env, ci any) engine.Outcome {
 		formats = []string{c.Setting.Only}
 	}
 	var keys []string
+	if c.Mutate != "" {
+		// first build on the unchanged tree (all formats), then change the tree
+		for _, f := range formats {
+			buildYAML(text, f)
+			out.Transitions++
+		}
+		kind, rel, _ := strings.Cut(c.Mutate, " ")
+		undo, err := t.Mutate(kind, rel)
+		if err != nil {
+			out.HarnessError = "mutation: " + err.Error()
+			return out
+		}
+		defer undo()
+	}
 	for _, f := range formats {
 		out.Transitions++
 		want := model.Plan(c.List, f, c.Setting.umask(), c.Setting.pkgMTime(), c.Setting.NoGlob, t)
@@ -248,7 +292,7 @@ func checkC01(env *engine.Env, ci any) engine.Outcome {
 		}
 		viol := func(sig, format string, a ...any) {
 			out.Violations = append(out.Violations, engine.Violation{Sig: sig,
-				Detail: fmt.Sprintf("format=%s setting=%s list=%s\n", f, c.Setting.Name, descList(c.List)) + fmt.Sprintf(format, a...)})
+				Detail: fmt.Sprintf("format=%s setting=%s list=%s source-tree-change-before-this-build=%q\n", f, c.Setting.Name, descList(c.List), c.Mutate) + fmt.Sprintf(format, a...)})
 		}
 		data, err := buildYAML(text, f)
 		if want.Collision || want.OtherErr != "" {
@@ -278,7 +322,7 @@ func checkC01(env *engine.Env, ci any) engine.Outcome {
 		}
 	}
 	sort.Strings(keys)
-	out.Key = strings.Join(keys, "|")
+	out.Key = c.Mutate + "|" + strings.Join(keys, "|")
 	return out
 }
 
